@@ -8,6 +8,7 @@ import (
 	"math"
 	"math/big"
 	"reflect"
+	"runtime/debug"
 	"sort"
 	"strconv"
 	"strings"
@@ -214,9 +215,16 @@ func runW(f []string, isStruct bool) string {
 		return "BADLINE"
 	}
 	c := &wctx{vm: goja.New(), fixed: f[0] == "1", isStruct: isStruct}
-	var vals []int
-	if f[2] != "-" {
-		for _, s := range strings.Split(f[2], ",") {
+	var vals, spare []int
+	live := f[2]
+	if k := strings.IndexByte(live, '/'); k >= 0 {
+		for _, s := range strings.Split(live[k+1:], ",") {
+			spare = append(spare, atoi(s)) // stale items in the spare capacity (a slice built as buf[:n])
+		}
+		live = live[:k]
+	}
+	if live != "-" && live != "" {
+		for _, s := range strings.Split(live, ",") {
 			vals = append(vals, atoi(s))
 		}
 	}
@@ -237,12 +245,15 @@ func runW(f []string, isStruct bool) string {
 		}
 	} else {
 		cp := atoi(f[1])
-		if cp < n {
-			cp = n
+		if cp < n+len(spare) {
+			cp = n + len(spare)
 		}
 		sl := make([]S, n, cp)
 		for i, v := range vals {
 			sl[i].Field = v
+		}
+		for i, v := range spare {
+			sl[:cp][n+i].Field = v
 		}
 		c.ptr = reflect.ValueOf(&sl)
 	}
@@ -1293,6 +1304,9 @@ func canon(v reflect.Value, seen map[uintptr]int, depth int) string {
 		}
 		return fmt.Sprintf("#%d[%s]", id, strings.Join(parts, ","))
 	}
+	if v.Kind() == reflect.Array && v.Len() == 2 {
+		return "<" + canon(v.Index(0), seen, depth+1) + "," + canon(v.Index(1), seen, depth+1) + ">"
+	}
 	return fmt.Sprint(v.Interface())
 }
 
@@ -1460,6 +1474,78 @@ func (w *ywalk) walk(js int, v reflect.Value) {
 	}
 }
 
+// canonY prints the exported Go graph in parallel with the script graph: depth-first, struct fields in declaration
+// order (only those the script object has), map entries sorted by key, identities numbered by first visit.
+func (w *ywalk) canonY(js int, v reflect.Value, num map[string]int) string {
+	for v.Kind() == reflect.Interface {
+		if v.IsNil() {
+			return "nil"
+		}
+		v = v.Elem()
+	}
+	if js >= len(w.nodes) {
+		return "?"
+	}
+	n := w.nodes[js]
+	id := identOf(v)
+	key := id + " " + v.Type().String()
+	if id != "" {
+		if k, ok := num[key]; ok {
+			return fmt.Sprintf("#%d", k)
+		}
+	}
+	child := func(spec string, cv reflect.Value) string {
+		if c, ok := refID(spec); ok {
+			return w.canonY(c, cv, num)
+		}
+		for cv.Kind() == reflect.Interface && !cv.IsNil() {
+			cv = cv.Elem()
+		}
+		return fmt.Sprint(cv.Interface())
+	}
+	switch v.Kind() {
+	case reflect.Ptr:
+		if v.IsNil() {
+			return "nilptr"
+		}
+		k := len(num)
+		num[key] = k
+		s := v.Elem()
+		var parts []string
+		for i := 0; i < s.NumField(); i++ {
+			name := s.Type().Field(i).Name
+			if spec, ok := n.fields[name]; ok {
+				parts = append(parts, name+":"+child(spec, s.Field(i)))
+			}
+		}
+		return fmt.Sprintf("#%d*{%s}", k, strings.Join(parts, ","))
+	case reflect.Map:
+		k := len(num)
+		num[key] = k
+		keys := append([]string{}, n.keys...)
+		sort.Strings(keys)
+		var parts []string
+		for _, name := range keys {
+			parts = append(parts, name+":"+child(n.fields[name], v.MapIndex(reflect.ValueOf(name))))
+		}
+		return fmt.Sprintf("#%d{%s}", k, strings.Join(parts, ","))
+	case reflect.Slice:
+		if v.Len() == 0 {
+			return "[]"
+		}
+		k := len(num)
+		num[key] = k
+		var parts []string
+		for i, e := range n.elems {
+			if i < v.Len() {
+				parts = append(parts, child(e, v.Index(i)))
+			}
+		}
+		return fmt.Sprintf("#%d[%s]", k, strings.Join(parts, ","))
+	}
+	return fmt.Sprint(v.Interface())
+}
+
 func runY(f []string) string {
 	if len(f) < 2 {
 		return "BADLINE"
@@ -1537,7 +1623,10 @@ func runY(f []string) string {
 			multi++
 		}
 	}
-	return fmt.Sprintf("ok pairs=%d classes=%d multiclass=%d", len(w.ident), len(classes), multi)
+	_ = classes
+	_ = multi
+	// the canonical structure (compared with the Lean model of the typed traversal); identity splits were reported above
+	return w.canonY(0, root.Elem(), map[string]int{})
 }
 
 // ---------------------------------------------------------------- K: nested wrappers (element wrapper -> field wrapper) on *[]KOuter
@@ -1875,6 +1964,95 @@ func runC(f []string) string {
 	return "fixed=[" + strings.Join(fixed, ",") + "] tail=[" + strings.Join(tail, ",") + "] -> " + res
 }
 
+// A <variadic> <kind,kind,...> | <arg> ...   argument conversion through wrapReflectFunc
+func runA(f []string) string {
+	if len(f) < 3 || f[2] != "|" {
+		return "BADLINE"
+	}
+	variadic := f[0] == "1"
+	kt := map[string]reflect.Type{"int": reflect.TypeOf(int(0)), "int8": reflect.TypeOf(int8(0)), "int16": reflect.TypeOf(int16(0)),
+		"int32": reflect.TypeOf(int32(0)), "int64": reflect.TypeOf(int64(0)), "uint": reflect.TypeOf(uint(0)), "uint8": reflect.TypeOf(uint8(0)),
+		"uint16": reflect.TypeOf(uint16(0)), "uint32": reflect.TypeOf(uint32(0)), "uint64": reflect.TypeOf(uint64(0))}
+	var in []reflect.Type
+	for _, k := range strings.Split(f[1], ",") {
+		t, ok := kt[k]
+		if !ok {
+			return "BADKIND"
+		}
+		in = append(in, t)
+	}
+	nargs := len(in)
+	if variadic {
+		if nargs == 0 {
+			return "BADLINE"
+		}
+		in[nargs-1] = reflect.SliceOf(in[nargs-1])
+	}
+	show := func(v reflect.Value) string {
+		if v.CanInt() {
+			return strconv.FormatInt(v.Int(), 10)
+		}
+		return strconv.FormatUint(v.Uint(), 10)
+	}
+	var fixed, tail []string
+	called := false
+	fn := reflect.MakeFunc(reflect.FuncOf(in, nil, variadic), func(args []reflect.Value) []reflect.Value {
+		called = true
+		fixed, tail = []string{}, []string{}
+		n := len(args)
+		if variadic {
+			n--
+			last := args[n]
+			for i := 0; i < last.Len(); i++ {
+				tail = append(tail, show(last.Index(i)))
+			}
+		}
+		for _, a := range args[:n] {
+			fixed = append(fixed, show(a))
+		}
+		return nil
+	})
+	vm := goja.New()
+	vm.Set("f", fn.Interface())
+	var names []string
+	for i, a := range f[3:] {
+		name := fmt.Sprintf("x%d", i)
+		names = append(names, name)
+		switch {
+		case a == "t":
+			vm.Set(name, true)
+		case a == "F":
+			vm.Set(name, false)
+		case a == "u":
+			vm.Set(name, goja.Undefined())
+		case a == "n":
+			vm.Set(name, goja.Null())
+		case a == "fn":
+			vm.Set(name, math.NaN())
+		case a == "fp":
+			vm.Set(name, math.Inf(1))
+		case a == "fm":
+			vm.Set(name, math.Inf(-1))
+		case a == "fz":
+			vm.Set(name, math.Copysign(0, -1))
+		case strings.HasPrefix(a, "i"):
+			n, _ := strconv.ParseInt(a[1:], 10, 64)
+			vm.Set(name, n)
+		case strings.HasPrefix(a, "f"):
+			b, _ := strconv.ParseUint(a[1:], 16, 64)
+			vm.Set(name, math.Float64frombits(b))
+		}
+	}
+	var err error
+	if m := recoverStr(func() { _, err = vm.RunString("f(" + strings.Join(names, ",") + ")") }); m != "" {
+		return m
+	}
+	if err != nil || !called {
+		return "THROW " + common.OneLine(fmt.Sprint(err))
+	}
+	return "fixed=[" + strings.Join(fixed, ",") + "] tail=[" + strings.Join(tail, ",") + "]"
+}
+
 // J nfixed variadic tail nout lastIsErr threw
 func runJ(f []string) string {
 	if len(f) != 6 {
@@ -2052,9 +2230,14 @@ func runX(f []string) string {
 	var b strings.Builder
 	b.WriteString("var n = [];\n")
 	for i, tok := range f {
-		if strings.HasPrefix(tok, "a:") {
+		switch {
+		case strings.HasPrefix(tok, "a:"):
 			fmt.Fprintf(&b, "n[%d] = [];\n", i)
-		} else {
+		case strings.HasPrefix(tok, "m:"):
+			fmt.Fprintf(&b, "n[%d] = new Map();\n", i)
+		case strings.HasPrefix(tok, "s:"):
+			fmt.Fprintf(&b, "n[%d] = new Set();\n", i)
+		default:
 			fmt.Fprintf(&b, "n[%d] = {};\n", i)
 		}
 	}
@@ -2063,17 +2246,37 @@ func runX(f []string) string {
 		if len(p) != 2 || p[1] == "" {
 			continue
 		}
-		for _, fl := range strings.Split(p[1], ",") {
+		fields := strings.Split(p[1], ",")
+		for _, fl := range fields {
 			kv := strings.SplitN(fl, "=", 2)
 			val := kv[1]
+			getter := strings.HasPrefix(val, "g")
+			if getter {
+				val = val[1:]
+			}
+			if val == "h" {
+				continue // a hole
+			}
 			if strings.HasPrefix(val, "r") {
 				val = "n[" + val[1:] + "]"
 			}
-			if p[0] == "a" {
+			switch p[0] {
+			case "a":
 				fmt.Fprintf(&b, "n[%d][%s] = %s;\n", i, kv[0], val)
-			} else {
-				fmt.Fprintf(&b, "n[%d].k%s = %s;\n", i, kv[0], val)
+			case "m":
+				fmt.Fprintf(&b, "n[%d].set(%s, %s);\n", i, kv[0], val)
+			case "s":
+				fmt.Fprintf(&b, "n[%d].add(%s);\n", i, val)
+			default:
+				if getter {
+					fmt.Fprintf(&b, "(function(v) { Object.defineProperty(n[%d], 'k%s', {get: function() { return v }, enumerable: true, configurable: true}) })(%s);\n", i, kv[0], val)
+				} else {
+					fmt.Fprintf(&b, "n[%d].k%s = %s;\n", i, kv[0], val)
+				}
 			}
+		}
+		if p[0] == "a" {
+			fmt.Fprintf(&b, "n[%d].length = %d;\n", i, len(fields))
 		}
 	}
 	b.WriteString("n[0]")
@@ -2090,6 +2293,7 @@ func runX(f []string) string {
 }
 
 func main() {
+	debug.SetMaxStack(48 << 20) // a runaway recursion in the bridge fails fast instead of eating a gigabyte of stack
 	common.Loop(func(line string) string {
 		f := strings.Fields(line)
 		if len(f) == 0 {
@@ -2124,6 +2328,8 @@ func main() {
 			return runK(f[1:])
 		case "C":
 			return runC(f[1:])
+		case "A":
+			return runA(f[1:])
 		case "J":
 			return runJ(f[1:])
 		case "E":
